@@ -409,10 +409,7 @@ impl<'a> Rw<'a> {
                     && pure(&b)
                     // 16-bit `>` and `<=` are C01's known finding wide_compare_le_gt (pinned here as wide_mirror)
                     && wide(self.base, &a) != Some(true)
-                    && wide(self.base, &b) != Some(true)
-                    // a bare register on the right of an indexed operand: known finding
-                    // cmp_indexed_vs_register (pinned here as mirror_register_right)
-                    && !(is_xy(&a) && !is_plain(&b)) =>
+                    && wide(self.base, &b) != Some(true) =>
             {
                 if self.hit() {
                     Expr::Bin(mirror(op), b, a)
@@ -788,7 +785,9 @@ impl<'a> Rw<'a> {
                 let eligible = pure(&e)
                     && cases.iter().all(|c| {
                         let n = c.1.len();
-                        n > 0 && matches!(c.1[n - 1], Stmt::Break) && !c.1[..n - 1].iter().any(has_own_break) && !c.1.iter().any(|s| matches!(s, Stmt::Decl(..)))
+                        // an arm ends in break (dropped in the if chain) or in continue (kept: it
+                        // belongs to the enclosing loop in both spellings)
+                        n > 0 && matches!(c.1[n - 1], Stmt::Break | Stmt::Continue) && !c.1[..n - 1].iter().any(has_own_break) && !c.1.iter().any(|s| matches!(s, Stmt::Decl(..)))
                     })
                     && d.as_ref().map(|d| {
                         let n = d.len();
@@ -803,7 +802,9 @@ impl<'a> Rw<'a> {
                         Stmt::Block(d)
                     });
                     for (vals, mut body) in cases.into_iter().rev() {
-                        body.pop();
+                        if matches!(body.last(), Some(Stmt::Break)) {
+                            body.pop();
+                        }
                         let mut c: Option<Expr> = None;
                         for v in vals {
                             let t = Expr::Bin(BinOp::Eq, Box::new(e.clone()), Box::new(Expr::Num(v)));
@@ -1114,10 +1115,10 @@ impl Monitor for C15 {
         let np = c15_pins().len() as u64;
         let mut v = split_chunks("pin", 0, np, np, 1);
         let n = match tier {
-            Tier::Quick => 12_000,
-            Tier::Thorough => 120_000,
+            Tier::Quick => 60_000,
+            Tier::Thorough => 600_000,
         };
-        v.extend(split_chunks("pair", seed_offset(seed, "C15p", 120_000), n, 120_000, 150));
+        v.extend(split_chunks("pair", seed_offset(seed, "C15p", 600_000), n, 600_000, 150));
         v
     }
     fn run_case(&self, kind: &str, idx: u64) -> CaseResult {
